@@ -6,7 +6,10 @@ From NV Require Import lib.Bytes lib.Corr model.IpParse model.Reject.
 Open Scope N_scope.
 
 Inductive case :=
-| CReject (p : list N) (cap : N) (out : list N) (panicked : bool).
+| CReject (p : list N) (cap : N) (out : list N) (panicked : bool)
+(* the callers: inside = true rejectInside, false rejectOutside; buflen = length of the reject / scratch buffer;
+   ws = the replies written to the tun resp. handed to the tunnel cipher; sent = number of tun writes resp. underlay datagrams *)
+| CCaller (inside : bool) (p : list N) (buflen : N) (ws : list (list N)) (sent : N) (panicked : bool).
 
 Definition is_nil (l : list N) : bool := match l with [] => true | _ => false end.
 
@@ -27,4 +30,17 @@ Definition check_case (c : case) : list N :=
       flag 2 (negb pan) ++
       flag 2 (is_nil out || (reply_ok p out && (blen out <=? cap))) ++
       flag 2 (negb (must_be_silent p cap) || is_nil out)
+  | CCaller inside p buflen ws sent pan =>
+      (* code 1: the model of rejectInside / rejectOutside differs from the code.
+         code 2: a panic; more than one reply; a reply that does not pass the validator against the WHOLE rejected packet
+         (RST numbers from the full segment length, quote of the original, checksums), exceeds the maximum, or answers
+         a fragment / ICMP error; a reply recorded but not (or more than once) sent *)
+      flag 1 (match (if inside then reject_inside p buflen else reject_outside p buflen), pan with
+              | Ok m, false => list_eqb nlist_eqb m ws
+              | Panic, true => true
+              | _, _ => false
+              end) ++
+      flag 2 (negb pan) ++
+      flag 2 (emitted_ok p (if inside then buflen else outside_cap buflen) ws) ++
+      flag 2 (sent =? N.of_nat (length ws))
   end.
